@@ -366,6 +366,34 @@ class WritePathStores:
             fld = str(keyterm[1])
         else:
             fld = "<" + pp(keyterm)[:30] + ">"
+        # a store into self.<...> whose value / condition is phrased in parameters of a private helper method: rewrite
+        # it into the terms of the methods that call the helper on the same object (self.helper(...)), so that the
+        # inventory reads the same whether or not the work was split over helpers
+        def self_rooted(t):
+            r, _ = self._root(t)
+            return r == SELF or (r[0] in ("tuple", "list") and r[1] and all(self_rooted(x) for x in r[1]))
+        if self_rooted(obj) and depth < 4 and f.name.startswith("_") and not f.name.startswith("__"):
+            if True:  # also when no parameter is mentioned: the call site's own condition belongs to the store
+                out = []
+                for g in sorted(self._callers.get(f, ()), key=lambda x: x.short):
+                    sg = self.te.summary(g)
+                    for c, tgs in sg.calls.items():
+                        if f not in tgs or not (c[1][0] == "attr" and c[1][1] == SELF):
+                            continue
+                        amap = self.te._bind_args(f, c)
+                        if amap is None:
+                            continue
+                        site_pc = ()
+                        for ge in sg.effects:
+                            if any(isinstance(t, tuple) and any(x == c for x in subterms(t))
+                                   for t in (ge.base, ge.key, ge.value)):
+                                site_pc = ge.pc
+                                break
+                        pc2 = site_pc + tuple(substitute(x, amap) for x in pc)
+                        for rec in self._resolve(obj, keyterm, substitute(val, amap), g, depth + 1, pc2):
+                            out.append(rec)  # provenance judged on the value as the caller passes it
+                if out:
+                    return out
         return [(p, pre, fld, derived_here, res, pc, obj, val) for p, pre, res in self._classify(obj, f, depth)]
 
     def _dynamic_names(self, keyterm, f, depth=0) -> set:
